@@ -461,3 +461,14 @@ package compile
 //@   requires c != nil && n != nil
 //@   modifies *
 //@   callsite @NewWhenContext whenMachine != nil
+
+// Compilation is total (C11: "compiling ... never panics: it returns a schema or an error"): whatever a build step
+// panics with - an error raised through Compiler.error or directly with panic(err) - is turned into the returned
+// error; only run-time errors of the Go runtime are passed on.
+//@ func (*Compiler).BuildModule
+//@   assumed
+//@   modifies *
+//@ func (*Compiler).BuildModules
+//@   requires c != nil
+//@   modifies *
+//@   exsures is(result, runtime.Error)
